@@ -454,14 +454,36 @@ def build_node(spec, h, funcs=None):
             raise HarnessError(f"unknown node kind {kind}")
     if spec.get("rename_in_chain"):
         for m in spec["rename_in_chain"]:
+            touch(n)  # the node is USED between renames (fills any cached lookup tables)
             n = n.with_inputs(dict(m))
     elif spec.get("rename_in"):
         n = n.with_inputs(dict(spec["rename_in"]))
     if spec.get("rename_out_chain"):
         for m in spec["rename_out_chain"]:
+            touch(n)
             n = n.with_outputs(dict(m))
     elif spec.get("rename_out"):
         n = n.with_outputs(dict(spec["rename_out"]))
+    return n
+
+
+def touch(n):
+    """Use a node the way a graph would (spec, defaults, types, name maps) so that every lazily cached table is filled."""
+    from hypergraph import Graph
+
+    try:
+        Graph([n]).inputs
+    except Exception:  # noqa: BLE001 - e.g. a gate whose targets are not in a one-node graph
+        pass
+    for p in n.inputs:
+        n.has_default_for(p)
+        n.has_signature_default_for(p)
+        n.get_input_type(p)
+    n.map_inputs_to_params({p: None for p in n.inputs})
+    getattr(n, "defaults", None)
+    getattr(n, "parameter_annotations", None)
+    if hasattr(n, "map_outputs_from_original"):
+        n.map_outputs_from_original({})
     return n
 
 
